@@ -42,7 +42,8 @@ pub fn fmt_non_power_two(&self, f: &mut Formatter) -> fmt::Result
         let ghost len = self.magnitude.nwords();
         proof {
             let d = radix_info.digits_per_word as int + 1;
-            assert(len * d <= len * 64) by (nonlinear_arith) requires len >= 0, 0 <= d <= 64;
+            let (wb, m) = (WORD_BITS as int, usize::MAX as int);
+            assert(len * d <= m) by (nonlinear_arith) requires len >= 0, 0 <= d <= wb, len + 1 < m / wb, wb >= 1;
             lemma_fl_number_bound(self.magnitude);
             match self.magnitude {
                 TypedReprRef::RefLarge(w) => { lemma_val_top(w@); lemma_pw_pos(w@.len() - 1); }
@@ -64,6 +65,7 @@ pub fn fmt_non_power_two(&self, f: &mut Formatter) -> fmt::Result
                 let nl = prepared.num_low_groups as int;
                 let dp = dpw(self.radix);
                 assert(0 <= nl * dp <= 16 * 64) by (nonlinear_arith) requires 0 <= nl <= 16, 1 <= dp <= 64;
+                assert(usize::MAX >= 0xffff);
                 assert forall|ds: Seq<u8>| #[trigger] prepared.emits(ds) implies positional(ds, rx, v) by {
                     lemma_fe_emitted(ds, medium_digits(prepared), rx, v, prepared.top_group);
                 }
